@@ -132,10 +132,14 @@ def docs_kinds():
 
 
 def body(ctx):
-    ctx.cov['outside_claim'] = ['runtime values (E-kgen/Kani runtime agreement is not part of this check)', 'flattened child/parent mappings (get_for_kind chain is covered by C05)', 'enums',
+    ctx.cov['outside_claim'] = ['runtime part: a few seeded programs only (enumeration over programs, Kani over all field values)', 'flattened child/parent mappings (get_for_kind chain is covered by C05)', 'enums',
                                 'a `?` inside a user expression (token-level: the expression is copied verbatim into every flavour, see C10)']
     ctx.assumptions = ['"the same instructions apply" is evaluated with the documented precedence chain (oracle), for every model of the path condition', 'decoder is structural; predicted == real tokens per path']
     expander.sweep(ctx, ['c07'], per_path)
+    # runtime half: Kani over the generated code with symbolic field values (and an arbitrary pre-existing destination)
+    sys.path.insert(0, os.path.join(VERIF, 'kgen'))
+    import c07_runtime
+    c07_runtime.run(ctx, VERIF, REPO, 3 if ctx.tier == 'quick' else 10, 1 if ctx.tier == 'quick' else 3)
 
 
 if __name__ == '__main__':
